@@ -463,6 +463,31 @@ def evaluate_cases(prop, cases):
     return recs
 
 
+def evaluate_batched(prop, cases, batch=400):
+    """evaluate_cases in batches; after each batch the bulky observations of records that show no failure are
+    reduced by the module's optional `slim(rec)` hook (a thorough tier of several thousand histories with
+    per-call snapshots of every object does not fit in memory otherwise). The non-triviality flag is computed
+    before slimming and kept in rec['_nontrivial']."""
+    slim = getattr(prop, "slim", None)
+    if slim is None or len(cases) <= 2 * batch:
+        return evaluate_cases(prop, cases)
+    out = []
+    for k in range(0, len(cases), batch):
+        recs = evaluate_cases(prop, cases[k:k + batch])
+        for r in recs:
+            try:
+                r["_nontrivial"] = bool(prop.nontrivial(r["case"], r["impl"]))
+            except Exception:  # noqa: BLE001
+                r["_nontrivial"] = False
+            if not (r["diff"] or r["oracle"]):
+                try:
+                    slim(r)
+                except Exception:  # noqa: BLE001
+                    pass
+        out.extend(recs)
+    return out
+
+
 def shrink_case(prop, case, still_fails, budget=60):
     sh = getattr(prop, "shrink", None)
     if sh is None:
@@ -554,7 +579,7 @@ def _main(prop, argv=None):
     changed_src = source_changed(pid)
     cases = corpus + gen
     t_eval = time.time()
-    recs = evaluate_cases(prop, cases) if ok else []
+    recs = evaluate_batched(prop, cases) if ok else []
     boosted = 0
     if ok and changed_src and tier == "quick" and not os.environ.get("VERIF_NO_BOOST"):
         # the anchored code differs from the baseline: up to triple the quick budget (another quick batch from
@@ -576,7 +601,7 @@ def _main(prop, argv=None):
     n_nontrivial = set()
     for r in recs:
         try:
-            if prop.nontrivial(r["case"], r["impl"]):
+            if r.get("_nontrivial") if "_nontrivial" in r else prop.nontrivial(r["case"], r["impl"]):
                 n_nontrivial.add(_hash({k: v for k, v in r["case"].items() if not k.startswith("_")}))
         except Exception:  # noqa: BLE001
             pass
